@@ -772,7 +772,43 @@ def _is_nibbles_conv(ctx, f, par, u, ann):
     return False
 
 
-@rule("VALMSG", ["C18"])
+def _format_mismatch(fmt, right):
+    """`fmt % right` with a literal format: the number of conversions against the number of operands, and integer
+    conversions (%d %i %x %X %o %c-less) against operands that are certainly not integers (a slice, a bytes / str
+    literal, a call of bytes / str / repr / hex).  -> reason or None"""
+    import re as _re
+    specs = [m_.group(2) for m_ in _re.finditer(r"%(\([^)]*\))?[#0\- +]*(?:\d+|\*)?(?:\.(?:\d+|\*))?[hlL]?([diouxXeEfFgGcrsa%])", fmt)]
+    named = any(m_.group(1) for m_ in _re.finditer(r"%(\([^)]*\))", fmt))
+    specs = [s_ for s_ in specs if s_ != "%"]
+    if named:
+        return None
+    ops = list(right.elts) if isinstance(right, ast.Tuple) else None
+    if ops is None:
+        if isinstance(right, (ast.Name, ast.Attribute, ast.Call, ast.Subscript)) and len(specs) != 1:
+            return None  # may be a tuple at run time: not decidable here
+        ops = [right]
+    if len(ops) != len(specs):
+        return "%d conversion(s) for %d operand(s)" % (len(specs), len(ops))
+
+    def not_int(e):
+        if isinstance(e, ast.Subscript) and isinstance(e.slice, ast.Slice):
+            return "a slice"
+        if isinstance(e, ast.Constant) and isinstance(e.value, (bytes, str)):
+            return "a %s literal" % type(e.value).__name__
+        if isinstance(e, ast.JoinedStr):
+            return "a string"
+        if isinstance(e, ast.Call) and isinstance(e.func, ast.Name) and e.func.id in ("bytes", "str", "repr", "hex", "tuple", "list"):
+            return "%s(..)" % e.func.id
+        return None
+    for sp, op in zip(specs, ops):
+        if sp in "diouxX":
+            w = not_int(op)
+            if w:
+                return "conversion %%%s is given %s (`%s`), not an integer" % (sp, w, ast.unparse(op)[:30])
+    return None
+
+
+@rule("VALMSG", ["C18", "C16"])
 def valmsg(ctx, pid):
     """A refusal must be raised as the class the code names: building its message may not fail first.
     `"... %r" % value` with the bare, still unvalidated parameter raises TypeError for a tuple argument
@@ -781,6 +817,7 @@ def valmsg(ctx, pid):
     scope = prop_scope(pid)
     n = 0
     bad = []
+    bad2 = []
     for f in util.all_functions(ctx, include_tools=False):
         if scope is not None and f.module.rel not in scope:
             continue
@@ -796,11 +833,18 @@ def valmsg(ctx, pid):
                         and (not isinstance(b.left, ast.Constant) or isinstance(b.left.value, str)):
                     if isinstance(b.right, ast.Name) and b.right.id in f.all_params():
                         bad.append((f, r, b))
+                    elif isinstance(b.left, ast.Constant):
+                        why = _format_mismatch(b.left.value, b.right)
+                        if why:
+                            bad2.append((f, r, b, why))
+    for f, r, b, why in bad2:
+        ctx.bad("refusal-message:%s:format" % fkey(f), f.loc(r), "`%s`: %s, so building the message raises TypeError and the %s is never raised"
+                % (util.norm_src(b)[:70], why, ast.unparse(r.exc.func)))
     for f, r, b in bad:
         ctx.bad("refusal-message:%s:%s" % (fkey(f), util.norm_src(b.right)), f.loc(r),
                 "`%s`: %%-formatting with the bare parameter `%s` raises TypeError when it is a tuple, so the %s is never raised for such an argument"
                 % (util.norm_src(b)[:70], b.right.id, ast.unparse(r.exc.func)))
-    if not bad:
+    if not bad and not bad2:
         ctx.ok("refusal-messages", "trie/", "%d raise sites in scope: no refusal message is %%-formatted with a bare parameter" % n, nontrivial=bool(n))
 
 
